@@ -459,12 +459,25 @@ func exec(line string, st *hx.Stats) string {
 		var parts []string
 		for pass := 0; pass < 2; pass++ {
 			for _, s := range steps {
-				a := ask(rg.cached, splitStore, splitModel, s, ctxOf[s.sel])      // contextual tuples, all caches on
+				a := ask(rg.cached, splitStore, splitModel, s, ctxOf[s.sel]) // contextual tuples, all caches on
+				// a request that was cancelled gave no answer (seen transiently with the iterator cache + shared
+				// iterators, also for requests without contextual tuples): ask again, report "CX" if it stays so
+				for rep := 0; rep < 3 && strings.Contains(a, "E:cancelled"); rep++ {
+					st.Inc("cached-side-cancelled")
+					a = ask(rg.cached, splitStore, splitModel, s, ctxOf[s.sel])
+				}
+				if strings.Contains(a, "E:cancelled") {
+					a = "CX"
+				}
 				p := ask(rg.plain, splitStore, splitModel, s, ctxOf[s.sel])       // contextual tuples, no caches
 				b := ask(rg.plain, refStore[s.sel][0], refStore[s.sel][1], s, nil) // the same tuples stored
 				if a == "DL" || b == "DL" || p == "DL" {
 					a, b, p = "DL", "DL", "DL"
 					st.Inc("listusers-deadline")
+				}
+				if a == "CX" {
+					a, b, p = "DL", "DL", "DL"
+					st.Inc("cached-side-cancelled-persistently")
 				}
 				mark := ""
 				if a != b || p != b {
